@@ -215,6 +215,9 @@ func (p *Path) epoch(v ssa.Value) int {
 	}
 	e := 0
 	for h, k := range p.enter {
+		if h.Parent() != in.Block().Parent() {
+			continue // dominance is only defined within one function
+		}
 		if h == in.Block() || h.Dominates(in.Block()) {
 			e += k
 		}
